@@ -10,6 +10,8 @@ CONSTANTS
   Plus = "min"
   Times = "add"
   LeafKind = "lin"
+  CopyCap = 99
+  ElimAll = FALSE
   Param = FALSE
   Tag = "sp_minadd"
 INVARIANT Inv_OracleInputs
